@@ -35,6 +35,16 @@ from photutils.utils.exceptions import NoDetectionsWarning
 __all__ = ['IterativePSFPhotometry', 'ModelImageMixin', 'PSFPhotometry']
 
 
+def _local_bkg_by_id(init_params):
+    """
+    Return the local background values ordered by source ID, i.e., in
+    the same order as the fit model parameters (the ``init_params``
+    table is in the order input by the user).
+    """
+    return init_params['local_bkg'][np.argsort(init_params['id'],
+                                               kind='stable')]
+
+
 class ModelImageMixin:
     """
     Mixin class to provide methods to calculate model images and
@@ -77,7 +87,7 @@ class ModelImageMixin:
             progress_bar = self.progress_bar
             psf_model = self.psf_model
             fit_params = self._fit_model_params
-            local_bkgs = self.init_params['local_bkg']
+            local_bkgs = _local_bkg_by_id(self.init_params)
         else:
             psf_model = self._psfphot.psf_model
             progress_bar = self._psfphot.progress_bar
@@ -92,14 +102,16 @@ class ModelImageMixin:
                     else:
                         fit_params = vstack((fit_params,
                                              psfphot._fit_model_params))
-                    local_bkgs.append(psfphot.init_params['local_bkg'])
+                    local_bkgs.append(
+                        _local_bkg_by_id(psfphot.init_params))
 
                 local_bkgs = _flatten(local_bkgs)
             else:
                 # use the fit params and local backgrounds only from the
                 # final iteration, which includes all sources
                 fit_params = self.fit_results[-1]._fit_model_params
-                local_bkgs = self.fit_results[-1].init_params['local_bkg']
+                local_bkgs = _local_bkg_by_id(
+                    self.fit_results[-1].init_params)
 
         model_params = fit_params
 
